@@ -90,9 +90,11 @@ append_derivation(CPPType *base, CPPVisibility vis, bool is_virtual) {
       def = base->as_typedef_type();
     }
 
-    if (vis == V_unknown && base->as_extension_type() != nullptr) {
-      // Default visibility.
-      if (base->as_extension_type()->_type == T_class) {
+    if (vis == V_unknown) {
+      // Default visibility: private for a class, public for a struct.  It is
+      // the class-key of this (the derived) class that decides, not the
+      // base's.
+      if (_type == T_class) {
         vis = V_private;
       } else {
         vis = V_public;
